@@ -643,7 +643,7 @@ func site(skip int) string {
 				f = f[j+1:]
 			}
 		}
-		s = fmt.Sprintf("%s:%d", f, fr.Line)
+		s = fmt.Sprintf("%s:%d", f, fr.Line-instrumented[fr.File])
 		siteCache[pc] = s
 	}
 	siteMu.Unlock()
@@ -651,6 +651,19 @@ func site(skip int) string {
 }
 
 var siteCache = map[uintptr]string{}
+
+// instrumented maps a source path to the number of header lines the instrumenter added.
+var instrumented = map[string]int{}
+
+// Instrumented is called from an init function appended to every instrumented file.
+func Instrumented(headerLines int) {
+	if _, f, _, ok := runtime.Caller(1); ok {
+		instrumented[f] = headerLines
+	}
+}
+
+// LineOffset is the number of lines the instrumenter added at the top of file.
+func LineOffset(file string) int { return instrumented[file] }
 var siteMu gosync.Mutex
 
 func active() *Sched {
